@@ -16,7 +16,9 @@
 (*            random parameters                                            *)
 (*   Load(route): load_state_dict on the model, through an enclosing       *)
 (*            container, or via a plain dict without _metadata             *)
-(*   AFTER the load: optionally Train -> Eval again, then Compare          *)
+(*   AFTER the load: optionally Train -> Eval again; evaluation-mode use;  *)
+(*            conversion to double precision; then Compare (against the    *)
+(*            source converted the same way)                               *)
 (* `stale` is what a careless implementation would still hold: the set of  *)
 (* derived quantities computed from the destination's pre-load parameters. *)
 (* The specification (the intended design) drops them at Load.             *)
@@ -26,52 +28,66 @@ EXTENDS Integers, FiniteSets, TLC
 Uses == {"fwd", "inv", "nograd"}
 Routes == {"direct", "container", "plain_dict"}
 
-CONSTANT LoadDrops     \* design switch: TRUE = loading drops what was derived before (the intended design)
+CONSTANTS LoadDrops,     \* design switch: TRUE = loading drops what was derived before (the intended design)
+          ConvertDrops   \* design switch: TRUE = a dtype conversion drops (or converts) derived tensors
 
-VARIABLES phase, srcHist, dstMode, evalFirst, dstUsed, route, retrained, stale, verdict
-vars == <<phase, srcHist, dstMode, evalFirst, dstUsed, route, retrained, stale, verdict>>
+\* usedAfter: evaluation-mode calls made after the load (they derive things from the LOADED parameters, in
+\* the precision the model then has); converted: the model was then converted to double precision
+VARIABLES phase, srcHist, dstMode, evalFirst, dstUsed, route, retrained, stale, usedAfter, converted, oldDtype, verdict
+vars == <<phase, srcHist, dstMode, evalFirst, dstUsed, route, retrained, stale, usedAfter, converted, oldDtype, verdict>>
 
 Init ==
   /\ phase = "source" /\ srcHist = {} /\ dstMode = "train" /\ evalFirst = FALSE /\ dstUsed = {}
   /\ route = "none" /\ retrained = FALSE /\ stale = {} /\ verdict = "none"
+  /\ usedAfter = {} /\ converted = FALSE /\ oldDtype = {}
 
 Train == /\ phase = "source" /\ "trained" \notin srcHist /\ srcHist' = srcHist \cup {"trained"}
-         /\ UNCHANGED <<phase, dstMode, evalFirst, dstUsed, route, retrained, stale, verdict>>
+         /\ UNCHANGED <<phase, dstMode, evalFirst, dstUsed, route, retrained, stale, verdict, usedAfter, converted, oldDtype>>
 UseSrc == /\ phase = "source" /\ "used" \notin srcHist /\ srcHist' = srcHist \cup {"used"}
-          /\ UNCHANGED <<phase, dstMode, evalFirst, dstUsed, route, retrained, stale, verdict>>
+          /\ UNCHANGED <<phase, dstMode, evalFirst, dstUsed, route, retrained, stale, verdict, usedAfter, converted, oldDtype>>
 BuildDst == /\ phase = "source" /\ phase' = "destination"
-            /\ UNCHANGED <<srcHist, dstMode, evalFirst, dstUsed, route, retrained, stale, verdict>>
+            /\ UNCHANGED <<srcHist, dstMode, evalFirst, dstUsed, route, retrained, stale, verdict, usedAfter, converted, oldDtype>>
 
 EvalFirst == /\ phase = "destination" /\ dstMode = "train" /\ dstUsed = {} /\ dstMode' = "eval" /\ evalFirst' = TRUE
-             /\ UNCHANGED <<phase, srcHist, dstUsed, route, retrained, stale, verdict>>
+             /\ UNCHANGED <<phase, srcHist, dstUsed, route, retrained, stale, verdict, usedAfter, converted, oldDtype>>
 \* a smoke run derives things from the destination's own parameters
 UseDst(k) == /\ phase = "destination" /\ k \notin dstUsed
              /\ (k = "nograd" => dstMode = "eval")
              /\ dstUsed' = dstUsed \cup {k}
              /\ stale' = stale \cup {k}
-             /\ UNCHANGED <<phase, srcHist, dstMode, evalFirst, route, retrained, verdict>>
+             /\ UNCHANGED <<phase, srcHist, dstMode, evalFirst, route, retrained, verdict, usedAfter, converted, oldDtype>>
 
 \* the intended design: loading invalidates everything derived from the old parameters
 Load(r) == /\ phase = "destination" /\ route' = r /\ phase' = "loaded"
            /\ stale' = (IF LoadDrops THEN {} ELSE stale)
-           /\ UNCHANGED <<srcHist, dstMode, evalFirst, dstUsed, retrained, verdict>>
+           /\ UNCHANGED <<srcHist, dstMode, evalFirst, dstUsed, retrained, verdict, usedAfter, converted, oldDtype>>
 
 \* train() then eval() after the load (train() is a documented invalidation point of the weight caches)
-Retrain == /\ phase = "loaded" /\ ~retrained /\ retrained' = TRUE /\ dstMode' = "eval"
-           /\ UNCHANGED <<phase, srcHist, evalFirst, dstUsed, route, stale, verdict>>
+Retrain == /\ phase = "loaded" /\ ~retrained /\ usedAfter = {} /\ ~converted /\ retrained' = TRUE /\ dstMode' = "eval"
+           /\ UNCHANGED <<phase, srcHist, evalFirst, dstUsed, route, stale, verdict, usedAfter, converted, oldDtype>>
+\* evaluation-mode use after the load: derived tensors of the loaded parameters, in the current precision
+UseLoaded(k) == /\ phase = "loaded" /\ ~converted /\ k \notin usedAfter
+                /\ usedAfter' = usedAfter \cup {k}
+                /\ UNCHANGED <<phase, srcHist, dstMode, evalFirst, dstUsed, route, retrained, stale, converted, oldDtype, verdict>>
+\* model.double(): parameters and buffers are converted; derived tensors must follow (or go)
+Convert == /\ phase = "loaded" /\ ~converted /\ converted' = TRUE
+           /\ oldDtype' = (IF ConvertDrops THEN {} ELSE usedAfter)
+           /\ UNCHANGED <<phase, srcHist, dstMode, evalFirst, dstUsed, route, retrained, stale, usedAfter, verdict>>
 Compare == /\ phase = "loaded" /\ phase' = "compared"
-           /\ verdict' = IF stale = {} THEN "same_function" ELSE "differs"
-           /\ UNCHANGED <<srcHist, dstMode, evalFirst, dstUsed, route, retrained, stale>>
+           /\ verdict' = IF stale # {} THEN "differs" ELSE IF oldDtype # {} THEN "dtype_error" ELSE "same_function"
+           /\ UNCHANGED <<srcHist, dstMode, evalFirst, dstUsed, route, retrained, stale, usedAfter, converted, oldDtype>>
 
 DoUseDst == phase = "destination" /\ \E k \in Uses : UseDst(k)
 DoLoad == phase = "destination" /\ \E r \in Routes : Load(r)
-Next == Train \/ UseSrc \/ BuildDst \/ EvalFirst \/ DoUseDst \/ DoLoad \/ Retrain \/ Compare
+DoUseLoaded == phase = "loaded" /\ \E k \in {"fwd", "inv"} : UseLoaded(k)
+Next == Train \/ UseSrc \/ BuildDst \/ EvalFirst \/ DoUseDst \/ DoLoad \/ Retrain \/ DoUseLoaded \/ Convert \/ Compare
 Spec == Init /\ [][Next]_vars
 
 -----------------------------------------------------------------------------
 TypeOK == /\ phase \in {"source", "destination", "loaded", "compared"}
           /\ srcHist \subseteq {"trained", "used"} /\ dstUsed \subseteq Uses /\ stale \subseteq Uses
           /\ route \in Routes \cup {"none"} /\ dstMode \in {"train", "eval"}
+          /\ usedAfter \subseteq Uses /\ oldDtype \subseteq Uses /\ converted \in BOOLEAN
 \* C15: whatever happened before, the reloaded model computes the saved function
 ReloadPreservesFunction == phase = "compared" => verdict = "same_function"
 \* nothing derived before the load survives it
